@@ -896,6 +896,30 @@ def gen_far(rng):
     return [zen, azi, pwr, dist]
 
 
+def twin_far(rng, far):
+    """A far-field request that differs from `far` in exactly one parameter:
+    keys that are too coarse (rounded, hashed, truncated) only collide
+    between near-identical requests.  hash(-1) == hash(-2) in CPython, so
+    that pair is included on purpose."""
+    import copy
+    a = copy.deepcopy(far)
+    b = copy.deepcopy(far)
+    which = rng.choice([0, 1])          # zenith or azimuth triple
+    pos = rng.choice([0, 1])            # initial or increment
+    how = rng.choice(['minus12', 'minus12', 'plus_small', 'sign', 'int_float'])
+    if how == 'minus12':
+        a[which][pos] = -1
+        b[which][pos] = -2
+    elif how == 'plus_small':
+        b[which][pos] = a[which][pos] + rng.choice([1, 0.5, 1e-3])
+    elif how == 'sign':
+        b[which][pos] = -a[which][pos] if a[which][pos] else 5
+    else:
+        b[which][pos] = float(a[which][pos]) + 0.0
+        b[which][2] = a[which][2] + 1
+    return a, b
+
+
 def gen_near(rng, m):
     L = m.length
     start = [rng.choice([1.0, -2.0, L / 2]), rng.choice([1.0, 3.0]), rng.choice([1.5, 5.0, L])]
@@ -1058,7 +1082,16 @@ def gen_api_task(rng, maxops=24, env=None, kinds=None, model=None, pool=None):
     if pool is None:
         pool, probes = gen_pool(rng, m)
     fars = [gen_far(rng) for _ in range(rng.choice([1, 1, 2, 3]))]
+    if rng.random() < 0.3:
+        # near-identical requests
+        fars[:2] = list(twin_far(rng, fars[0]))
     nears = [gen_near(rng, m) for _ in range(rng.choice([0, 1, 1, 2]))]
+    if nears and rng.random() < 0.25:
+        import copy
+        tw = copy.deepcopy(nears[0])
+        k = rng.randrange(3)
+        tw[rng.choice([0, 1])][k] += rng.choice([1.0, 0.5, 1e-3])
+        nears = [nears[0], tw]
     ops = gen_api_ops(rng, len(pool), len(fars), len(nears), maxops)
     return dict(kind='api', builder='cli', argv=m.argv(), pool=pool, fars=fars,
                 nears=nears, ops=ops, template=m.template, env=m.env,
